@@ -167,12 +167,6 @@ def _d13(ans, impl_outcome, variant_key="l1"):
     return {"at_len": bool(ans["at_len"]), "agrees_current": impl_outcome == ans[variant_key], "variant": variant_key}
 
 
-def _d24_sig(opts, info):
-    """signature of proposed finding D24 for one chunk (all three facts evaluated by Lean): integer chromosome ids
-    (decode_chroms=False), reflect, no record dropped, some record lower-triangular"""
-    return (not opts.get("decode", True)) and opts.get("tril") == "reflect" and info[0] == info[1] and bool(info[2])
-
-
 def _check_l1_l0(ans, opts):
     if not ans["valid"]:
         raise AssertionError("generator produced an invalid segmentation")
@@ -197,6 +191,7 @@ def _records_top(case):
     f = _sanitizer(bins, opts, nx)
     answers = drv().ask("C05.sanitize_batch", bins=bins, opts=_lean_opts(opts), batches=batches)
     nret = nrej = nd13 = 0
+    first_d13 = None
     for bi, (batch, ans) in enumerate(zip(batches, answers)):
         _check_l1_l0(ans, opts)
         cells, err, nrows = [], None, 0
@@ -227,14 +222,20 @@ def _records_top(case):
             # agreement with the model of the current code is judged on the class-free outcome
             cur = ans["l1"] if "ok" in ans["l1"] else {"err": "*"}
             g2 = got if "ok" in got else {"err": "*"}
-            sig24 = any(_d24_sig(opts, info) for info in ans["chunk_info"])
-            return {"mismatch": True, "batch": bi, "records": batch, "impl": got, "spec": want, "note": bad,
-                    "d13": {"at_len": bool(ans["at_len"]), "agrees_current": g2 == cur, "variant": "l1"},
-                    "d24": {"sig": sig24, "agrees_variant": sig24 and got == {"err": "ValueError"}}}
+            res = {"mismatch": True, "batch": bi, "records": batch, "impl": got, "spec": want, "note": bad,
+                   "d13": {"at_len": bool(ans["at_len"]), "agrees_current": g2 == cur, "variant": "l1"}}
+            if not (res["d13"]["at_len"] and res["d13"]["agrees_current"]):
+                return res          # a disagreement that is not the known finding: report it at once
+            nd13 += 1               # known finding D13: remember the first, keep checking the other batches
+            first_d13 = first_d13 or res
+            continue
         if "ok" in got:
             nret += ans["n_retained"]
         else:
             nrej += 1
+    if first_d13:
+        first_d13["n_batches_with_known_finding"] = nd13
+        return first_d13
     return {"stats": {"batches": len(batches), "retained": nret, "rejected": nrej}}
 
 
@@ -251,9 +252,7 @@ def _records_unit(case):
             st, out = guarded(f, _chunk_df(ch, schema, nx, nu, opts.get("decode", True)))
             if st == "err":
                 if model.get("err") != out:
-                    sig24 = _d24_sig(opts, ans["chunk_info"][ci])
-                    return {"mismatch": True, "batch": bi, "chunk": ch, "impl": {"err": out}, "model": model,
-                            "d24": {"sig": sig24, "agrees_variant": sig24 and out == "ValueError" and "ok" in model}}
+                    return {"mismatch": True, "batch": bi, "chunk": ch, "impl": {"err": out}, "model": model}
                 continue
             if "err" in model:
                 return {"mismatch": True, "batch": bi, "chunk": ch, "impl": {"ok": _frame_rows(out, schema, nx, nu)}, "model": model}
@@ -614,16 +613,10 @@ def classify(name, case, result, findings):
     """D13 only: the failing input has a record whose zero-based position equals its chromosome's length (signature,
     evaluated by Lean's `atLength`) AND the implementation's outcome is exactly that of the Lean model of the code as it
     stands (variant oracle: `sanitizeRecords` with `>`; for the CLI followed by what `create` does with an id past the table)"""
-    if not isinstance(result, dict):
+    if not isinstance(result, dict) or not any(f["id"] == "D13" for f in findings):
         return None
-    ids = {f["id"] for f in findings}
-    d = result.get("d24")
-    # proposed D24 (pandas>=3 copy-on-write): decode_chroms=False + reflect + a lower-triangle record in a chunk from which
-    # nothing was dropped -> ValueError("assignment destination is read-only"); variant oracle = exactly that error there
-    if "D24" in ids and d and d.get("sig") and d.get("agrees_variant") and name in ("records_top", "records_unit"):
-        return "D24"
     d = result.get("d13")
-    if "D13" in ids and d and d.get("at_len") and d.get("agrees_current") and LEVELS.get(name) == "top":
+    if d and d.get("at_len") and d.get("agrees_current") and LEVELS.get(name) == "top":
         return "D13"
     return None
 
@@ -717,26 +710,42 @@ def _perm_batches(rng, recs, nperm):
 def cases(tier, rng):
     thorough = tier == "thorough"
     yield "constants", {}
-    # ---- corpus: D13 and D1 shapes first -------------------------------------------------------
+    # ---- corpus ------------------------------------------------------------------------------------
     t_uni = gen.chrom_bins(0, [2, 2]) + gen.chrom_bins(1, [2, 1])
     t_long = gen.chrom_bins(0, [2, 5]) + gen.chrom_bins(1, [2, 2])
+    t_3 = gen.chrom_bins(0, [3]) + gen.chrom_bins(1, [4]) + gen.chrom_bins(2, [8])
+    late = []   # cases that are expected to hit known finding D13 go last (they must not crowd out anything else)
     for nm in ("records_top", "records_unit"):
-        yield nm, {"bins": t_uni, "opts": {"tril": "reflect"}, "batches": [[[[0, 1, 0, 4, [], [], []]]], [[[1, 3, 1, 3, [], [], []]]],
-                                                                            [[[0, 4, 1, 0, [], [], []]]]], "kind": "corpus-D13"}
+        # D1 (fixed e8655d6): a longer last bin must not be binned by division
         yield nm, {"bins": t_long, "opts": {"tril": "reflect"}, "batches": [[[[0, 6, 1, 3, [], [], []]]], [[[0, 1, 0, 6, [], [], []],
                                                                                                             [1, 0, 0, 5, [], [], []]]]], "kind": "corpus-D1"}
+        # D24 (fixed b100e7d): integer chromosome ids + reflect + a lower-triangle record, nothing dropped
+        yield nm, {"bins": t_3, "opts": {"tril": "reflect", "decode": False}, "kind": "corpus-D24",
+                   "batches": [[[[2, 0, 1, 0, [], [], [3]]]], [[[2, 1, 1, 1, [], [], [4]], [0, 2, 2, 7, [], [], [1]], [1, 3, 1, 0, [], [], [2]]]]]}
+        late.append((nm, {"bins": t_uni, "opts": {"tril": "reflect"}, "batches": [[[[0, 1, 0, 4, [], [], []]]], [[[1, 3, 1, 3, [], [], []]]],
+                                                                                  [[[0, 4, 1, 0, [], [], []]]]], "kind": "corpus-D13"}))
     # ---- exhaustive single records ---------------------------------------------------------------
     tabs = tables(tier, rng)
     for label, bins in tabs:
         anc = _anchors(bins)
+        L = _sizes(bins)
         for one_based in (False, True):
+            def at_len(a):
+                return a[0] is not None and a[1] - int(one_based) == L[a[0]]
+            plain = [a for a in anc if not at_len(a)]
             for tril in TRILS:
-                for (c1, p1) in anc:
-                    batches = [[[[c1, p1, c2, p2, [], [], [1, 0]]]] for (c2, p2) in anc]
-                    case = {"bins": bins, "opts": {"one_based": one_based, "tril": tril, "sort": False}, "batches": batches,
-                            "kind": f"single:{label}"}
+                opts = {"one_based": one_based, "tril": tril, "sort": False}
+                for (c1, p1) in plain:
+                    batches = [[[[c1, p1, c2, p2, [], [], [1, 0]]]] for (c2, p2) in plain]
+                    case = {"bins": bins, "opts": opts, "batches": batches, "kind": f"single:{label}"}
                     yield "records_top", case
                     yield "records_unit", case
+                # every pair with an anchor exactly at its chromosome's length: the signature of D13
+                batches = [[[[c1, p1, c2, p2, [], [], [1, 0]]]] for (c1, p1) in anc for (c2, p2) in anc
+                           if at_len((c1, p1)) or at_len((c2, p2))]
+                case = {"bins": bins, "opts": opts, "batches": batches, "kind": f"single-atlength:{label}"}
+                late.append(("records_top", case))
+                late.append(("records_unit", case))
     # ---- seeded multisets ---------------------------------------------------------------------------
     nmulti = 260 if thorough else 70
     for k in range(nmulti):
@@ -857,6 +866,7 @@ def cases(tier, rng):
                 c2col, p2col = rng.choice([(4, 5), (4, 5), (3, 4), (5, 6), (4, 6), (7, 3)])
                 yield "cli_tabix", {"bins": bins, "records": recs, "zero_based": zero, "c2": c2col, "p2": p2col,
                                     "max_split": rng.choice([1, 2, 3]), "kind": f"tabix:{label}"}
+    yield from late
 
 
 def nontrivial(name, case):
@@ -915,7 +925,7 @@ def shrink(name, case):
 def escalate(name, case, rng):
     """a unit correspondence stopped checking: look for an input on which the property itself fails (and is not D13)"""
     worker_init()
-    findings = [{"id": "D13"}, {"id": "D24"}]
+    findings = [{"id": "D13"}]
 
     def fails(nm, c):
         r = run_check(CHECKS[nm], c)
